@@ -15,7 +15,7 @@ import (
 func init() {
 	register(&PropDef{
 		ID:          "C19",
-		Patterns:    []string{"./node", "./data"},
+		Patterns:    []string{"./node", "./data", "./parser"},
 		Explanation: "ClassGeneric.Clone shares the *ClassStatement between all instantiations of a generic class. For 'instantiating Box<int> never changes what Box<string> accepts' it is necessary that (SHARED) no method of ClassGeneric mutates anything reachable from the shared statement — no store into its maps or fields and no call of a receiver-mutating method on a value taken from them; (MAP) every instantiation gets its own type-argument map, built from this new-expression's arguments; (PRED) the generic type predicate is not a constant. Which values a given instantiation accepts is value-level and not decided.",
 		Assumptions: []string{
 			"a method is receiver-mutating if some implementation in packages node/data assigns a field of its receiver (directly)",
@@ -506,8 +506,105 @@ func evalClosureFieldWrites(npkg *packages.Package) ([]evalFieldWrite, map[strin
 	return out, examined
 }
 
+// c19SiteArgs: every `new C<…>` node carries a type-argument list of its own. Where the parser builds a
+// node.NewClassGenerated, the slice it stores is made for this node — a literal, make, or a local grown
+// from nil/a literal — and is not (a reslice of, or an append onto) a slice held in a field of the parser:
+// a reused buffer gives all sites one backing array, so the site parsed last rewrites the others' arguments.
+func c19SiteArgs(r *Run) {
+	pp := r.pkg("parser")
+	if pp == nil {
+		return
+	}
+	r.curRule = "C19-MAP"
+	info := pp.TypesInfo
+	n := 0
+	for _, fd := range funcDecls(pp) {
+		if fd.Body == nil {
+			continue
+		}
+		// roots of locals: does the value derive from a struct field?
+		defs := map[types.Object][]ast.Expr{}
+		ast.Inspect(fd.Body, func(m ast.Node) bool {
+			if as, ok := m.(*ast.AssignStmt); ok && len(as.Lhs) == len(as.Rhs) {
+				for i, l := range as.Lhs {
+					if id, ok := l.(*ast.Ident); ok {
+						o := info.Defs[id]
+						if o == nil {
+							o = info.Uses[id]
+						}
+						if o != nil {
+							defs[o] = append(defs[o], as.Rhs[i])
+						}
+					}
+				}
+			}
+			return true
+		})
+		var fromField func(e ast.Expr, depth int) (bool, string)
+		fromField = func(e ast.Expr, depth int) (bool, string) {
+			if depth > 4 {
+				return false, ""
+			}
+			switch x := ast.Unparen(e).(type) {
+			case *ast.SelectorExpr:
+				if sel, ok := info.Selections[x]; ok && sel.Kind() == types.FieldVal {
+					return true, exprStr(x)
+				}
+			case *ast.SliceExpr:
+				return fromField(x.X, depth+1)
+			case *ast.CallExpr:
+				if id, ok := ast.Unparen(x.Fun).(*ast.Ident); ok && id.Name == "append" && len(x.Args) > 0 {
+					return fromField(x.Args[0], depth+1)
+				}
+			case *ast.Ident:
+				for _, d := range defs[info.Uses[x]] {
+					if id2, ok := ast.Unparen(d).(*ast.CallExpr); ok {
+						if fid, ok := ast.Unparen(id2.Fun).(*ast.Ident); ok && fid.Name == "append" && len(id2.Args) > 0 {
+							if a0, ok := ast.Unparen(id2.Args[0]).(*ast.Ident); ok && info.Uses[a0] == info.Uses[x] {
+								continue // x = append(x, …): the root is x's other definitions
+							}
+						}
+					}
+					if ok, why := fromField(d, depth+1); ok {
+						return true, why
+					}
+				}
+			}
+			return false, ""
+		}
+		ast.Inspect(fd.Body, func(m ast.Node) bool {
+			cl, ok := m.(*ast.CompositeLit)
+			if !ok || !isNamed(info.TypeOf(cl), modPath+"/node", "NewClassGenerated") {
+				return true
+			}
+			for _, el := range cl.Elts {
+				kv, ok := el.(*ast.KeyValueExpr)
+				if !ok {
+					continue
+				}
+				if _, isSlice := info.TypeOf(kv.Value).Underlying().(*types.Slice); !isSlice {
+					continue
+				}
+				n++
+				key := funcKey(pp, fd) + "#site-arguments:" + exprStr(kv.Key)
+				if shared, why := fromField(kv.Value, 0); shared {
+					r.bad(key, kv.Pos(), "the type-argument list stored in this `new C<…>` node is built on "+why+", a slice held by the parser: every site parsed with the same parser shares its backing array, so a site parsed later overwrites the arguments of the earlier ones")
+				} else {
+					r.ok(key, kv.Pos(), "the type-argument list of this site is a slice made for this node")
+				}
+			}
+			return true
+		})
+	}
+	if n == 0 {
+		r.fail("no construction of node.NewClassGenerated with a type-argument list found in package parser")
+	}
+}
+
 // c19Site: no node type stores a declaration (data.Property / data.Types) into itself during evaluation.
 func c19Site(r *Run) {
+	c19SiteArgs(r)
+	r.curRule = "C19-SITE"
 	npkg := r.pkg("node")
 	if npkg == nil {
 		return
